@@ -15,9 +15,14 @@ ASSUMPTIONS = [
 @st.composite
 def spec_strategy(draw):
     if draw(st.integers(0, 3)) == 0:
-        tree = draw(sv.tree_strategy(depth=1, batch=False))
+        tree = draw(sv.tree_strategy(depth=1, batch=draw(st.booleans())))
     else:
         tree = {'t': 'w', 'tag': 'A', 'n': draw(st.sampled_from([1, 2, 3])), 'pre': False}
+        bs = draw(st.sampled_from([None, None, None, 1, 2]))  # a slot must come back from batching workers too (a failing batch, a batch of one)
+        if bs is not None:
+            tree['bs'] = bs
+            if bs > 1:
+                tree['bw'] = draw(st.sampled_from([0, 0.01]))
         if draw(st.booleans()):
             tree = {'t': 'seq', 'ch': [tree, {'t': 'w', 'tag': 'B', 'n': draw(st.sampled_from([1, 2])), 'pre': False}]}
     capacity = draw(st.sampled_from([1, 1, 2, 2, 3, 4]))
@@ -152,8 +157,116 @@ def run_async_case(spec):
         sample={'tree': spec['tree'], 'capacity': spec['capacity'], 'callers': [[(s['rid'], s['timeout'], s['bp'], s.get('cancel_after')) for s in c] for c in spec['callers']], 'max_backlog': obs.max_backlog, 'outcomes': [(r['rid'], r['kind']) for r in obs.calls][:14]},
     )
 
+# --------------------------------------------------------------------------- F3 any result value gives the slot back
+
+VALUES = [None, None, 0, False, '', [], (), 'v', 1, {'k': None}]
+
+
+@st.composite
+def values_spec(draw):
+    shape = draw(st.sampled_from(['w', 'seq_w', 'ens', 'ens', 'seq_ens', 'switch']))
+    k = draw(st.integers(2, 3)) if 'ens' in shape or shape == 'switch' else 1
+    nreq = draw(st.integers(1, 8))
+    table = [[draw(st.integers(0, len(VALUES) - 1)) for _ in range(k)] for _ in range(nreq)]  # request x member -> index into VALUES
+    nthreads = draw(st.integers(1, 3))
+    return {'shape': shape, 'k': k, 'ff': draw(st.booleans()), 'table': table, 'owners': [draw(st.integers(0, nthreads - 1)) for _ in range(nreq)], 'nthreads': nthreads,
+            'capacity': draw(st.sampled_from([1, 2, 3, 8])), 'delays': [draw(st.sampled_from([0, 0, 0.001, 0.01])) for _ in range(k)], 'sched': draw(sched_strategy(max_len=120, est_steps=1500, depth=3))}
+
+
+def run_values_case(spec):
+    import threading
+    import time
+
+    from vf.core import run_sim
+
+    results = {}
+    box = {}
+
+    def scenario():
+        from mpservice.mpserver import EnsembleServlet, SequentialServlet, Server, SwitchServlet, ThreadServlet, Worker
+
+        class Pass(Worker):
+            def call(self, x):
+                return x
+
+        class Val(Worker):
+            def __init__(self, *, member, **kw):
+                super().__init__(**kw)
+                self.member = member
+
+            def call(self, x):
+                d = spec['delays'][self.member]
+                if d:
+                    time.sleep(d)
+                return VALUES[spec['table'][x][self.member]]
+
+        class Switch(SwitchServlet):
+            def switch(self, x):
+                return spec['table'][x][0] % spec['k']
+
+        members = [ThreadServlet(Val, member=m) for m in range(spec['k'])]
+        shape = spec['shape']
+        if shape == 'w':
+            servlet = members[0]
+        elif shape == 'seq_w':
+            servlet = SequentialServlet(ThreadServlet(Pass), members[0])
+        elif shape == 'ens':
+            servlet = EnsembleServlet(*members, fail_fast=spec['ff'])
+        elif shape == 'seq_ens':
+            servlet = SequentialServlet(ThreadServlet(Pass), EnsembleServlet(*members, fail_fast=spec['ff']))
+        else:
+            servlet = Switch(*members)
+        with Server(servlet, capacity=spec['capacity']) as server:
+
+            def caller(t):
+                for rid, o in enumerate(spec['owners']):
+                    if o != t:
+                        continue
+                    try:
+                        results[rid] = ('value', server.call(rid, timeout=1000, backpressure=False))
+                    except Exception as e:
+                        results[rid] = ('exc', type(e).__name__, str(e)[:100])
+
+            ths = [threading.Thread(target=caller, args=(t,), name=f'harness-caller-{t}') for t in range(spec['nthreads'])]
+            for t in ths:
+                t.start()
+            for t in ths:
+                t.join()
+            time.sleep(1.0)
+            box['idle_backlog'] = server.backlog
+        return True
+
+    out = run_sim(scenario, spec['sched'], horizon=50_000.0, max_steps=400_000)
+    hang_check(out)
+    if out.exc is not None:
+        raise Violation('scenario_exception', f'{type(out.exc).__name__}: {out.exc}', signature=['exc', type(out.exc).__name__])
+    falsy = 0
+    for rid, row in enumerate(spec['table']):
+        if spec['shape'] in ('w', 'seq_w'):
+            want = VALUES[row[0]]
+        elif spec['shape'] == 'switch':
+            want = VALUES[row[row[0] % spec['k']]]
+        else:
+            want = [VALUES[i] for i in row]
+        falsy += any(not VALUES[i] for i in row)
+        got = results.get(rid)
+        if got is None or got[0] != 'value':
+            raise Violation('unanswered', f"request {rid} (timeout 1000 s, result values {want!r}) ended with {got}; shape {spec['shape']}", signature=['unanswered', 'values'])
+        if repr(got[1]) != repr(want):
+            raise Violation('wrong_result', f'request {rid}: got {got[1]!r}, expected {want!r}', signature=['wrong_result', 'values'])
+    if box.get('idle_backlog') != 0:
+        raise Violation('slot_leak', f"idle server has backlog {box.get('idle_backlog')} after every call returned (shape {spec['shape']})", signature=['slot_leak', 'values'])
+    return CaseInfo(
+        nontrivial=falsy > 0,
+        descriptor=[spec['shape'], spec['k'], spec['ff'], spec['table'], spec['owners'], spec['capacity'], out.sim.trace[:30]],
+        classes=(spec['shape'], 'with_None' if any(VALUES[i] is None for row in spec['table'] for i in row) else 'no_None', f"cap{spec['capacity']}"),
+        metrics={'steps': out.sim.steps, 'requests': len(spec['table'])},
+        sample={'shape': spec['shape'], 'values': [[repr(VALUES[i]) for i in row] for row in spec['table']][:4], 'capacity': spec['capacity']},
+    )
+
 
 FAMILIES = [
     Family('F1_server', 'sim', spec_strategy(), run_case, quick=2500, thorough=120_000, shards_quick=12, rule=RULE, setup=_warm),
     Family('F2_async_server', 'sim', async_spec(), run_async_case, quick=1500, thorough=80_000, shards_quick=8, rule='as F1 for AsyncServer: callers are tasks on a scheduler-aware event loop, some calls are cancelled while pending; same invariants (every step) and clauses.', setup=_warm),
+    Family('F3_any_result_value', 'sim', values_spec(), run_values_case, quick=800, thorough=40_000, shards_quick=4, rule='workers (single, after a pass-through stage, members of an ensemble with either fail_fast, members of a switch) return generated values including None and other falsy objects; 1-8 requests from 1-3 threads, capacity 1-8, schedules. Oracle: every call returns exactly the planned value (list of member values for an ensemble) and the idle server has backlog 0. Non-trivial: some result value is falsy.', setup=_warm),
 ]
